@@ -480,6 +480,7 @@ def histories(draw, tier):
         st.tuples(st.just("register"), st.sampled_from(KINDS), st.sampled_from(["falsy", "falsy", "truthy", "raise", "enter-fails", "raise-base"])),
         st.tuples(st.just("register-registering"), st.sampled_from(["push-async", "push-sync", "callback-sync"])),
         st.tuples(st.just("register-popping"), st.sampled_from(["push-async", "push-sync", "callback-sync"])),
+        st.tuples(st.just("register-entering"), st.sampled_from(["push-async", "push-sync"])),
         st.tuples(st.just("aclose")),
         st.tuples(st.just("pop_all"), st.booleans()),
         st.tuples(st.just("leave"), st.booleans()),
@@ -655,6 +656,41 @@ def check_history(case):
                     stack.push(registering)
                 else:
                     stack.callback(registering)
+                mark(eid)
+                owner[eid] = cur
+            elif name == "register-entering":
+                # a composite resource: while it is being entered, the manager registers a helper callback on the
+                # very stack it is entered on.  The helper was registered first, so it is unwound AFTER the manager
+                eid, helper = next_id, next_id + 1
+                next_id += 2
+                stack = stacks[cur]
+
+                def helper_cb(helper=helper):
+                    ran.append((helper, running_on[0]))
+
+                class EnteringCM:
+                    async def __aenter__(self_inner, stack=stack, helper=helper, home=cur):  # noqa: N805
+                        stack.callback(helper_cb)
+                        mark(helper)
+                        owner[helper] = home
+                        return None
+
+                    async def __aexit__(self_inner, et, ev, tb, eid=eid):  # noqa: N805
+                        ran.append((eid, running_on[0]))
+                        return False
+
+                class EnteringSCM:
+                    def __enter__(self_inner, stack=stack, helper=helper, home=cur):  # noqa: N805
+                        stack.callback(helper_cb)
+                        mark(helper)
+                        owner[helper] = home
+                        return None
+
+                    def __exit__(self_inner, et, ev, tb, eid=eid):  # noqa: N805
+                        ran.append((eid, running_on[0]))
+                        return False
+
+                await stack.enter_context(EnteringCM() if op[1] != "push-sync" else EnteringSCM())
                 mark(eid)
                 owner[eid] = cur
             elif name == "register-popping":
